@@ -328,6 +328,25 @@ Arith(op, a, b) ==
     [] op = "**" -> IPow(a, b)
     [] OTHER     -> Unsup
 
+\* trees EvalInt gives a meaning to (never d = 2), names = the variables valued
+RECURSIVE IsIntTree(_, _)
+IsIntTree(t, names) ==
+  IF t.k = "lit" THEN t.ty = "int" /\ t.v \in DOMAIN LitTable
+  ELSE IF t.k = "ref" THEN t.n \in names
+  ELSE IF t.k = "un" THEN t.op \in AddOps /\ IsIntTree(t.x, names)
+  ELSE IF t.k = "bin" THEN /\ t.op \in {"+", "-", "*", "/", "exdiv", "**"}
+                           /\ IsIntTree(t.l, names) /\ IsIntTree(t.r, names)
+  ELSE IF t.k = "des" THEN
+       /\ Len(t.parts) = 1
+       /\ LET nm == t.parts[1].n
+              as == t.parts[1].args
+          IN /\ Len(as) >= 1
+             /\ \A i \in DOMAIN as : IsIntTree(as[i], names)
+             /\ (nm = "mod" => Len(as) = 2)
+             /\ (nm \in {"min", "max"} => Len(as) >= 2)
+             /\ (nm \notin {"mod", "min", "max"} => Len(as) = 1)
+  ELSE FALSE
+
 RECURSIVE EvalInt(_, _), EvalFold(_, _, _, _, _)
 \* MIN / MAX over args[i..]
 EvalFold(name, args, i, acc, val) ==
